@@ -286,6 +286,140 @@ fn reconnect_scenario(id_kind: u8, policy: u8) -> Verdict {
     e3::finish(v)
 }
 
+/// One identity through two lives, the application sending and receiving all along: the first connection sends a
+/// message and ends (cleanly or by a reset); the end is seen by a recv call that stays pending and is then abandoned
+/// (`observed`), or by nobody; a send to the identity now must fail and write nothing anywhere; a second connection
+/// announces the same identity, sends, is answered, sends again, is answered again. A bystander B must see nothing.
+fn lives_scenario(id_kind: u8, reset: bool, observed: bool, policy: u8) -> Verdict {
+    world::reset(world::WorldCfg { nested_env: true, yields: true, select: false, policy, coop: false });
+    let id = announced(id_kind, 0).unwrap();
+    let a1 = e3::raw_conn("A1");
+    let a2 = e3::raw_conn("A2");
+    let b = e3::raw_conn("B");
+    b.send(&rc::handshake("DEALER", Some(b"bystander")));
+    a1.send(&rc::handshake("DEALER", Some(&id)));
+    a1.send(&rc::encode_message(&[b"m1".to_vec()]));
+    a1.gate("m1-received");
+    if reset {
+        world::push_chunk(a1.to_lib, world::Chunk::Err(std::io::ErrorKind::ConnectionReset));
+    } else {
+        a1.eof();
+    }
+    a2.gate("second-life");
+    a2.send(&rc::handshake("DEALER", Some(&id)));
+    a2.send(&rc::encode_message(&[b"m2".to_vec(), vec![]]));
+    a2.gate("m2-answered");
+    a2.send(&rc::encode_message(&[b"m3".to_vec()]));
+    let sock = AnySocket::new(Ty::Router, None);
+    for (name, c, cond) in [("B", b, "b-attached"), ("first", a1, "first-attached"), ("second", a2, "second-attached")] {
+        let be = sock.backend();
+        world::spawn_app(&format!("attach-{}", name), async move {
+            let r = e3::attach_raw(be, c).await;
+            world::log(format!("attach({}) -> {}", name, e3::ok_or_err(&r)));
+            world::set_cond(cond);
+        });
+    }
+    let obs = std::rc::Rc::new(std::cell::RefCell::new(Vec::<String>::new()));
+    let obs2 = obs.clone();
+    let id2 = id.clone();
+    world::spawn_app("app", async move {
+        let mut sock = sock;
+        let wires = move || (world::tap_len(a1.from_lib), world::tap_len(a2.from_lib), world::tap_len(b.from_lib));
+        let show_recv = |r: &Option<zeromq::ZmqResult<zeromq::ZmqMessage>>| r.as_ref().map(e3::show_result).unwrap_or_else(|| "pending".into());
+        world::wait_cond("b-attached").await;
+        let r = world::until_idle(sock.recv()).await;
+        obs2.borrow_mut().push(format!("recv#1 -> {}", show_recv(&r)));
+        world::set_cond("m1-received");
+        if observed {
+            // this call sees the end of the first life, stays pending, and is abandoned
+            let r = world::until_idle(sock.recv()).await;
+            obs2.borrow_mut().push(format!("recv (nothing to receive) -> {}", show_recv(&r)));
+            if let Some(Err(_)) = r {
+                // a reset may be reported once; the call after that finds nothing
+                let r = world::until_idle(sock.recv()).await;
+                obs2.borrow_mut().push(format!("recv (nothing to receive) -> {}", show_recv(&r)));
+            }
+            let w0 = wires();
+            world::yield_now().await;
+            let s = sock.send(msg(&[id2.clone(), b"to-the-gone".to_vec()])).await;
+            let w1 = wires();
+            obs2.borrow_mut().push(format!("send-to-gone -> {} first+{} second+{} bystander+{}", if s.is_ok() { "Ok" } else { "Err" }, w1.0 - w0.0, w1.1 - w0.1, w1.2 - w0.2));
+        } else {
+            world::idle().await;
+        }
+        world::set_cond("second-life");
+        world::wait_cond("second-attached").await;
+        for (k, next) in [(2, "m2-answered"), (3, "all-answered")] {
+            let r = world::until_idle(sock.recv()).await;
+            obs2.borrow_mut().push(format!("recv#{} -> {}", k, show_recv(&r)));
+            let w0 = wires();
+            world::yield_now().await;
+            let s = sock.send(msg(&[id2.clone(), format!("reply{}", k).into_bytes()])).await;
+            let w1 = wires();
+            obs2.borrow_mut().push(format!("reply#{} -> {} first+{} second+{} bystander+{}", k, if s.is_ok() { "Ok" } else { "Err" }, w1.0 - w0.0, w1.1 - w0.1, w1.2 - w0.2));
+            world::set_cond(next);
+        }
+        world::set_cond("done");
+        world::wait_cond("never").await;
+        drop(sock);
+    });
+    let end = world::run(e3::HORIZON);
+    let mut v = Verdict::default();
+    v.truncated = end != world::RunEnd::Quiescent;
+    let what = format!(
+        "ROUTER: identity ({}) living two lives, the first ended by a {} {}",
+        if id_kind == 0 { "1 byte" } else { "255 bytes" },
+        if reset { "reset" } else { "clean close" },
+        if observed { "that a pending, then abandoned recv saw" } else { "nobody has seen yet" }
+    );
+    for p in world::panics() {
+        v.violate("panic", format!("{}: {}", what, p));
+    }
+    if v.truncated {
+        v.violate("spin", format!("{}: no quiescence", what));
+    }
+    let o = obs.borrow().clone();
+    for l in &o {
+        world::log(l.clone());
+    }
+    if world::panics().is_empty() && !v.truncated {
+        if !world::cond("done") {
+            v.violate("lives/app-stuck", format!("{}: {:?}", what, o));
+        } else {
+            let reply_len = rc::encode_message(&[b"reply2".to_vec()]).len();
+            let mut want = vec![format!("recv#1 -> Ok{}", rc::show_frames(&[id.clone(), b"m1".to_vec()]))];
+            let mut got: Vec<String> = o.clone();
+            if observed {
+                // the pending recv: pending, or one error for the reset and then pending
+                got.retain(|l| !(l.starts_with("recv (nothing to receive) -> ") && (l.ends_with("pending") || (reset && l.contains("Err")))));
+                want.push("send-to-gone -> Err first+0 second+0 bystander+0".to_string());
+            }
+            want.push(format!("recv#2 -> Ok{}", rc::show_frames(&[id.clone(), b"m2".to_vec(), vec![]])));
+            want.push(format!("reply#2 -> Ok first+0 second+{} bystander+0", reply_len));
+            want.push(format!("recv#3 -> Ok{}", rc::show_frames(&[id.clone(), b"m3".to_vec()])));
+            want.push(format!("reply#3 -> Ok first+0 second+{} bystander+0", reply_len));
+            if got != want {
+                let first_bad = got.iter().zip(want.iter()).find(|(g, w)| g != w).map(|(g, _)| g.clone()).unwrap_or_else(|| got.last().cloned().unwrap_or_default());
+                let class = if first_bad.starts_with("send-to-gone") {
+                    "lives/send-to-gone-identity"
+                } else if first_bad.starts_with("recv") {
+                    "lives/recv"
+                } else {
+                    "lives/reply-to-second-life"
+                };
+                v.violate(class, format!("{}: the application saw {:?}, expected {:?}", what, got, want));
+            }
+            let dec = a2.tap_decoded();
+            let replies: Vec<Vec<Vec<u8>>> = dec.messages();
+            if replies != vec![vec![b"reply2".to_vec()], vec![b"reply3".to_vec()]] || dec.error.is_some() {
+                v.violate("lives/second-life-wire", format!("{}: the second connection's wire carries {:?}", what, replies.iter().map(|m| rc::show_frames(m)).collect::<Vec<_>>()));
+            }
+        }
+    }
+    v.outcome_hash = rc::fnv(o.join("|").as_bytes());
+    e3::finish(v)
+}
+
 /// A send to peer A is abandoned while A's connection accepts nothing (a timeout around send()),
 /// then the connection recovers. A never disconnected, so later sends addressed to A must be
 /// delivered to A (whole messages only on its wire), and B's traffic is unaffected.
@@ -507,6 +641,10 @@ pub fn run(tier: Tier, replay: Option<String>) -> i32 {
                 let (k, how, big, pol) = (p["id_kind"].as_u64()? as u8, p["how"].as_u64()? as u8, p["big"].as_bool()?, p["policy"].as_u64()? as u8);
                 return Some(std::sync::Arc::new(move || cancel_scenario(k, how, big, pol)) as zvcore::explore::Scenario);
             }
+            if p["scenario"] == "lives" {
+                let (k, reset, observed, pol) = (p["id_kind"].as_u64()? as u8, p["reset"].as_bool()?, p["observed"].as_bool()?, p["policy"].as_u64()? as u8);
+                return Some(std::sync::Arc::new(move || lives_scenario(k, reset, observed, pol)) as zvcore::explore::Scenario);
+            }
             if p["scenario"] == "reconnect" {
                 let (k, pol) = (p["id_kind"].as_u64()? as u8, p["policy"].as_u64()? as u8);
                 return Some(std::sync::Arc::new(move || reconnect_scenario(k, pol)) as zvcore::explore::Scenario);
@@ -556,6 +694,21 @@ pub fn run(tier: Tier, replay: Option<String>) -> i32 {
     for id_kind in 0..2u8 {
         for policy in 0..3u8 {
             jobs.push(e3::job(format!("C09/reconnect/id{}/policy{}", id_kind, policy), json!({"scenario":"reconnect","id_kind":id_kind,"policy":policy}), tier.pick(2, 3), tier.pick(300_000, 3_000_000), move || reconnect_scenario(id_kind, policy)));
+        }
+    }
+    for id_kind in 0..2u8 {
+        for reset in [false, true] {
+            for observed in [true, false] {
+                for policy in 0..tier.pick(1u8, 3u8) {
+                    jobs.push(e3::job(
+                        format!("C09/lives/id{}/reset{}/observed{}/policy{}", id_kind, reset, observed, policy),
+                        json!({"scenario":"lives","id_kind":id_kind,"reset":reset,"observed":observed,"policy":policy}),
+                        tier.pick(1, 2),
+                        tier.pick(100_000, 2_000_000),
+                        move || lives_scenario(id_kind, reset, observed, policy),
+                    ));
+                }
+            }
         }
     }
     for id_kind in 0..3u8 {
